@@ -559,12 +559,21 @@ def b_int(it, args, kwargs, fr, node):
             return int(v)
         except ValueError:
             raise exc(ValueError, 'invalid literal for int()')
-    if isinstance(v, VStr):
-        # int(tok): unconstrained integer, ValueError possible
+    if isinstance(v, VStr) and len(args) == 1:
+        # int(tok): unconstrained integer, ValueError possible; a token made of digits only always converts, to >= 0
         ok = z3.Function('int_ok', I, B)(v.ident)
+        it.ctx.assume(z3.Implies(z3.Function('str_isdigit', I, B)(v.ident), z3.And(ok, z3.Function('int_of', I, I)(v.ident) >= 0)))
         if not it.ctx.spec_mode and not it.ctx.branch(ok):
             raise exc(ValueError, 'invalid literal for int()')
         r = z3.Function('int_of', I, I)(v.ident)
+        return r
+    if isinstance(v, VStr) and len(args) == 2 and isinstance(args[1], int):
+        # int(tok, base): its own uninterpreted conversion; refusal is ValueError
+        ok = z3.Function(f'int{args[1]}_ok', I, B)(v.ident)
+        if not it.ctx.spec_mode and not it.ctx.branch(ok):
+            raise exc(ValueError, 'invalid literal for int() with base %d' % args[1])
+        r = z3.Function(f'int{args[1]}_of', I, I)(v.ident)
+        it.ctx.assume(r >= 0) if False else None
         return r
     raise Unsupported(f'int() of {type(v).__name__}')
 
@@ -1052,6 +1061,10 @@ def call_method_builtin(it, recv, name, args, kwargs, fr, node):
             if isinstance(r, bytes):
                 return VBytes.lit(r)
             return r
+        if name == 'find' and len(args) == 1 and isinstance(args[0], str) and isinstance(recv, VStr):
+            pos = z3.Function('str_find:' + args[0], I, I)(recv.ident)
+            ctx.assume(pos >= -1)
+            return pos
         if name in ('isdigit', 'isalnum', 'isalpha', 'startswith', 'endswith', 'isprintable', 'isascii'):
             key = name + ''.join(':' + a for a in args if isinstance(a, str))
             ident = recv.ident if isinstance(recv, VStr) else _str_id(recv)
